@@ -71,6 +71,7 @@ def run(ctx):
     _no_hash_keyed_tables(ctx, repo)
     _reader_builds_with_cls(ctx, repo)
     _repr_covers_equality(ctx, repo)
+    _repr_keeps_order_of_equality(ctx, repo, 'C11.u')
     _json_keys_decided_independently(ctx, repo)
     shared.mapping_order_in_equality_rule(ctx, 'C11.r')
     shared.frozen_dataclass_eq_hash_rule(ctx, 'C11.s')
@@ -789,6 +790,64 @@ def _repr_covers_equality(ctx, repo):
         ok = not miss or whole or ex is not None
         ctx.ob('C11.o', f'{ci.qual}.__repr__:covers-equality', ok, ('tabled: ' + ex) if (ex and miss and not whole) else '' if ok else
                f'__repr__ never reads {miss}, which equality compares: two unequal values print the same, and eval(repr(x)) is not equal to x', ci.mod.rel, rp.lineno)
+
+
+def _repr_keeps_order_of_equality(ctx, repo, rid='C11.u'):
+    """A __repr__ that sorts a field prints a different value than the one equality compares in order."""
+    ctx.decided.append(f'{rid} a __repr__ does not sort (or turn into a set) a field that _value_equality_values_ hands over as it is stored, unless the constructor stores it in that canonical order')
+    ctx.rule(rid, 'repr does not reorder what equality compares in order: where __repr__ prints `sorted(self.F)` / `set(self.F)`, either _value_equality_values_ canonicalises F the same way '
+             '(sorted / frozenset / set around it), or __init__ stores F already canonicalised - otherwise eval(repr(x)) holds the elements in another order than x and is not equal to it',
+             floor=1, style='COH')
+    CANON = ('sorted', 'set', 'frozenset')
+    n = 0
+    for ci in sorted(repo.classes.values(), key=lambda c: c.qual):
+        if '.testing.' in ci.qual or '.contrib.' in ci.qual or '.interop.' in ci.qual:
+            continue
+        rp = ci.methods.get('__repr__')
+        ev = repo.find_method(ci, '_value_equality_values_')
+        if rp is None or ev is None:
+            continue
+        par = ci.mod.parents()
+        for c in ast.walk(rp):
+            if not (isinstance(c, ast.Call) and isinstance(c.func, ast.Name) and c.func.id in CANON and len(c.args) >= 1 and is_self_attr(c.args[0])):
+                continue
+            fld = c.args[0].attr
+            # only what is printed counts (inside an f-string field or an argument of a formatting call), not a test on the way
+            a_, printed = par.get(c), False
+            while a_ is not None and a_ is not rp:
+                if isinstance(a_, ast.FormattedValue) or (isinstance(a_, ast.Call) and (call_name(a_) or '').split('.')[-1] in ('format', 'proper_repr', 'repr', 'join')):
+                    printed = True
+                if isinstance(a_, (ast.Compare, ast.If)) and not printed:
+                    break
+                a_ = par.get(a_)
+            if not printed:
+                continue
+            prop = repo.find_method(ci, fld)
+            if prop is not None and prop[1].returns is not None and 'set' in ast.unparse(prop[1].returns).lower():
+                continue    # a property that hands out a set: equality on it ignores order already
+
+            def canon_in(fn):
+                return any(isinstance(x, ast.Call) and isinstance(x.func, ast.Name) and x.func.id in CANON and any(is_self_attr(y) and y.attr == fld for a in x.args for y in ast.walk(a))
+                           for x in ast.walk(fn))
+            raw_in_eq = any(is_self_attr(x) and x.attr == fld for x in ast.walk(ev[1]))
+            if not raw_in_eq:
+                continue
+            n += 1
+            stored_canon = False
+            for owner in repo.mro(ci):
+                init = owner.methods.get('__init__')
+                if init is None:
+                    continue
+                for st in ast.walk(init):
+                    if isinstance(st, (ast.Assign, ast.AnnAssign)):
+                        tg = st.targets if isinstance(st, ast.Assign) else [st.target]
+                        if any(is_self_attr(t) and t.attr == fld for t in tg) and st.value is not None and \
+                                any(isinstance(x, ast.Call) and isinstance(x.func, ast.Name) and x.func.id in CANON for x in ast.walk(st.value)):
+                            stored_canon = True
+            ok = canon_in(ev[1]) or stored_canon
+            ctx.ob(rid, f'{ci.qual}.__repr__:{fld}', ok, '' if ok else
+                   f'__repr__ prints {c.func.id}(self.{fld}) while equality compares self.{fld} in stored order: for elements given in another order eval(repr(x)) != x', ci.mod.rel, c.lineno)
+    return n
 
 
 def _json_keys_decided_independently(ctx, repo, rid='C11.q'):
